@@ -35,6 +35,11 @@ type specEnv struct {
 	qdepth   int
 	rdepth   int
 	resTypes []types.Type
+	preAlloc Term
+	// polarity bookkeeping for the one-directional unfolding of recursive predicates
+	pol        int  // +1 positive, -1 negative, 0 unknown/both (after first use it is never 0 at top level)
+	assertMode bool // the formula being evaluated is a proof goal (not an assumption)
+	polSet     bool
 }
 
 // envForFrame builds the environment of the function under verification.
@@ -112,7 +117,19 @@ func (c *Ctx) isCapturedCell(fv *ssa.FreeVar) bool {
 	return ok
 }
 
+// evalGoal evaluates a formula that is about to be proved.
+func (c *Ctx) evalGoal(env *specEnv, n *SNode) (Term, error) {
+	saved, savedPol := env.assertMode, env.pol
+	env.assertMode, env.pol = true, 1
+	t, err := c.evalBool(env, n)
+	env.assertMode, env.pol = saved, savedPol
+	return t, err
+}
+
 func (c *Ctx) evalBool(env *specEnv, n *SNode) (Term, error) {
+	if env.pol == 0 && !env.polSet {
+		env.pol, env.polSet = 1, true
+	}
 	v, err := c.evalSpec(env, n)
 	if err != nil {
 		return Term{}, err
@@ -193,7 +210,13 @@ func (c *Ctx) evalSpec(env *specEnv, n *SNode) (specVal, error) {
 		}
 		return specVal{c.Unbox(st, x.t, t), t}, nil
 	case "un":
+		if n.Text == "!" {
+			env.pol = -env.pol
+		}
 		x, err := c.evalSpec(env, n.Args[0])
+		if n.Text == "!" {
+			env.pol = -env.pol
+		}
 		if err != nil {
 			return specVal{}, err
 		}
@@ -555,11 +578,22 @@ func (c *Ctx) evalBin(env *specEnv, n *SNode) (specVal, error) {
 	op := n.Text
 	switch op {
 	case "&&", "||", "==>", "<==>":
+		savedPol := env.pol
+		if op == "==>" {
+			env.pol = -savedPol
+		} else if op == "<==>" {
+			env.pol = 0
+		}
 		a, err := c.evalBool(env, n.Args[0])
+		env.pol = savedPol
 		if err != nil {
 			return specVal{}, err
 		}
+		if op == "<==>" {
+			env.pol = 0
+		}
 		b, err := c.evalBool(env, n.Args[1])
+		env.pol = savedPol
 		if err != nil {
 			return specVal{}, err
 		}
@@ -574,11 +608,15 @@ func (c *Ctx) evalBin(env *specEnv, n *SNode) (specVal, error) {
 			return specVal{T(SBool, "(= %s %s)", a.S, b.S), tBool}, nil
 		}
 	}
+	savedPol2 := env.pol
+	env.pol = 0
 	a, err := c.evalSpec(env, n.Args[0])
 	if err != nil {
+		env.pol = savedPol2
 		return specVal{}, err
 	}
 	b, err := c.evalSpec(env, n.Args[1])
+	env.pol = savedPol2
 	if err != nil {
 		return specVal{}, err
 	}
@@ -773,6 +811,42 @@ func (c *Ctx) evalCall(env *specEnv, n *SNode) (specVal, error) {
 			r = T(SInt, "(sl_arr %s)", r.S)
 		}
 		return specVal{Select(c.Arr(st, famAlloc, ArraySort(SInt, SBool)), r), tBool}, nil
+	case "callres":
+		// callres(Callee, siteOrdinal, k): the k-th result of that call on the current path
+		if len(n.Args) != 3 || n.Args[1].Op != "lit-int" || n.Args[2].Op != "lit-int" {
+			return specVal{}, fmt.Errorf("callres(callee, site, index) expects literal ordinals")
+		}
+		name, ok := typeTextOf(n.Args[0])
+		if !ok {
+			return specVal{}, fmt.Errorf("callres: bad callee name")
+		}
+		key := name + "#" + n.Args[1].Text
+		idx, _ := strconv.Atoi(n.Args[2].Text)
+		vals, ok := st.callResults[key]
+		if !ok || idx >= len(vals) {
+			// the call did not happen on this path: an arbitrary value
+			return specVal{c.FreshConst(st, "nocall", SAny), tAny}, nil
+		}
+		t := c.toTerm(st, vals[idx])
+		return specVal{t, c.typeOfCallRes(env, name, n.Args[1].Text, idx)}, nil
+	case "fresh":
+		// fresh(x): x was allocated by the call (it did not exist in the pre-state)
+		x, err := argv(0)
+		if err != nil {
+			return specVal{}, err
+		}
+		r := x.t
+		if r.Sort == SSlice {
+			r = T(SInt, "(sl_arr %s)", r.S)
+		}
+		pre := env.preAlloc
+		if pre.S == "" && c.cur != nil {
+			pre = c.cur.entryAlloc
+		}
+		if pre.S == "" {
+			return specVal{}, fmt.Errorf("fresh() outside of a postcondition")
+		}
+		return specVal{And(Not(Select(pre, r)), Select(c.Arr(st, famAlloc, ArraySort(SInt, SBool)), r)), tBool}, nil
 	case "isNaN":
 		x, err := argv(0)
 		if err != nil {
@@ -992,7 +1066,7 @@ func (c *Ctx) evalPure(env *specEnv, pd *PureDef, n *SNode) (specVal, error) {
 		c.Reg.DeclFun(fn, sorts, SBool)
 		atom := T(SBool, "(%s %s)", fn, strings.Join(parts, " "))
 		if env.rdepth == 0 && pd.Body != nil {
-			sub := &specEnv{c: c, st: env.st, vars: map[string]specVal{}, pkg: pkg, fn: env.fn, frame: env.frame, rdepth: 1}
+			sub := &specEnv{c: c, st: env.st, vars: map[string]specVal{}, pkg: pkg, fn: env.fn, frame: env.frame, rdepth: 1, pol: 1, polSet: true}
 			for i, p := range pd.Params {
 				sub.vars[p[0]] = args[i]
 			}
@@ -1000,13 +1074,26 @@ func (c *Ctx) evalPure(env *specEnv, pd *PureDef, n *SNode) (specVal, error) {
 			if err != nil {
 				return specVal{}, fmt.Errorf("in %s: %v", pd.Name, err)
 			}
-			// one-level unfolding in the current state (the structure is immutable once built)
-			env.st.Assume(T(SBool, "(= %s %s)", atom.S, body.S))
+			// one-level unfolding in the current state (the structure is immutable once built).
+			// Both directions are true facts; only the direction that can help is stated (an
+			// assumed positive occurrence needs atom => body, a goal needs body => atom).
+			dir := env.pol
+			if env.assertMode {
+				dir = -dir
+			}
+			switch {
+			case dir > 0:
+				env.st.Assume(Implies(atom, body))
+			case dir < 0:
+				env.st.Assume(Implies(body, atom))
+			default:
+				env.st.Assume(T(SBool, "(= %s %s)", atom.S, body.S))
+			}
 		}
 		return specVal{atom, rt}, nil
 	}
 	if pd.Body != nil {
-		sub := &specEnv{c: c, st: env.st, vars: map[string]specVal{}, pkg: pkg, fn: env.fn, post: env.post, results: env.results, old: env.old, oldCache: env.oldCache, frame: env.frame, loopHead: env.loopHead, rdepth: env.rdepth}
+		sub := &specEnv{c: c, st: env.st, vars: map[string]specVal{}, pkg: pkg, fn: env.fn, post: env.post, results: env.results, old: env.old, oldCache: env.oldCache, frame: env.frame, loopHead: env.loopHead, rdepth: env.rdepth, preAlloc: env.preAlloc, pol: env.pol, polSet: true, assertMode: env.assertMode}
 		for i, p := range pd.Params {
 			sub.vars[p[0]] = args[i]
 		}
@@ -1154,4 +1241,22 @@ func typeTextOf(a *SNode) (string, bool) {
 		}
 	}
 	return "", false
+}
+
+// typeOfCallRes finds the Go type of the k-th result of a call site of the function under verification.
+func (c *Ctx) typeOfCallRes(env *specEnv, callee string, ord string, k int) types.Type {
+	if env.fn == nil {
+		return tAny
+	}
+	for ins, si := range c.sitesOf(env.fn) {
+		if si.class == "call "+callee && fmt.Sprint(si.ord) == ord {
+			if call, ok := ins.(*ssa.Call); ok {
+				rs := call.Call.Signature().Results()
+				if k < rs.Len() {
+					return rs.At(k).Type()
+				}
+			}
+		}
+	}
+	return tAny
 }
